@@ -51,6 +51,8 @@ func callArg[T any](name string, k int, i int) T   { var z T; return z }
 func callResult[T any](name string, k int) T       { var z T; return z }
 func callOrder(a string, i int, b string, j int) bool { return true }
 func traceSeq(evs ...ev) bool                      { return true }
+func writeSeq(evs ...ev) bool                      { return true }
+func evByte(c byte) ev                             { return ev{} }
 func fullSeq(evs ...ev) bool                       { return true }
 func evLC(comments []string) ev                    { return ev{} }
 func evMap(pos token.Position) ev                  { return ev{} }
@@ -219,7 +221,7 @@ func here(cw *CodeWriter) gpos {
 //@   ensures [pendings] eq(cw.pendings, old(cw.pendings)) && cw.IndentLevel == old(cw.IndentLevel)
 //@   ensures [no-mapping@C08] cw.Mapper == nil || sourcemap.NumMappings(cw.Mapper) == old(sourcemap.NumMappings(cw.Mapper))
 //@   ensures [request-kept@C08] cw.deferred == old(cw.deferred)
-//@   ensures [written@C06] implies(len(s) > 0, !cw.semiOmitted) && implies(len(s) == 0, cw.semiOmitted == old(cw.semiOmitted))
+//@   ensures [semi.kept@C06] cw.semiOmitted == old(cw.semiOmitted)
 //@   ensures [empty@C06] implies(len(s) == 0, eq(cw.Builder, old(cw.Builder)) && cw.lastByte == old(cw.lastByte))
 
 // write = a separating space if needed, then (for a token) the requested mapping, then the text; the mapper advances
@@ -227,14 +229,30 @@ func here(cw *CodeWriter) gpos {
 //@ func (cw *CodeWriter) write(s, isToken)
 //@   props C08 C06 C15 C11 C14
 //@   use cwFrame
-//@   ensures [mechanism@C08,C14] fullSeq(evOpt(len(s) > 0, evCall("(*CodeWriter).separateSigns")), evOpt(len(s) > 0 && isToken, evCall("(*CodeWriter).commitMapping")), evOpt(len(s) > 0 && cw.Mapper != nil, evCall("(*SourceMapper).AdvanceString"))) && implies(len(s) > 0 && cw.Mapper != nil, callArg[string]("(*SourceMapper).AdvanceString", 0, 1) == s)
+//@   ensures [mechanism@C08,C14] fullSeq(evOpt(len(s) > 0 && isToken, evCall("(*CodeWriter).restoreSemi")), evOpt(len(s) > 0, evCall("(*CodeWriter).separateSigns")), evOpt(len(s) > 0 && isToken, evCall("(*CodeWriter).commitMapping")), evOpt(len(s) > 0 && cw.Mapper != nil, evCall("(*SourceMapper).AdvanceString"))) && implies(len(s) > 0 && isToken, callArg[byte]("(*CodeWriter).restoreSemi", 0, 1) == s[0]) && implies(len(s) > 0 && cw.Mapper != nil, callArg[string]("(*SourceMapper).AdvanceString", 0, 1) == s)
 //@   ensures [pendings] eq(cw.pendings, old(cw.pendings)) && cw.IndentLevel == old(cw.IndentLevel)
 //@   ensures [no-mapping@C08] implies(cw.Mapper != nil && !(isToken && len(s) > 0 && old(cw.deferred.set)), sourcemap.NumMappings(cw.Mapper) == old(sourcemap.NumMappings(cw.Mapper)))
 //@   ensures [recorded@C08] implies(cw.Mapper != nil && isToken && len(s) > 0 && old(cw.deferred.set), sourcemap.NumMappings(cw.Mapper) == old(sourcemap.NumMappings(cw.Mapper))+1 && pointsAt(cw, old(sourcemap.NumMappings(cw.Mapper)), old(cw.deferred)) && gposStr(startOf(cw, old(sourcemap.NumMappings(cw.Mapper))), s) == here(cw))
 //@   ensures [request-kept@C08] implies(!isToken, cw.deferred == old(cw.deferred))
 //@   ensures [request-used@C08] implies(isToken && cw.Mapper != nil, !cw.deferred.set)
-//@   ensures [written@C06] implies(len(s) > 0, !cw.semiOmitted) && implies(len(s) == 0, cw.semiOmitted == old(cw.semiOmitted))
+//@   ensures [written@C06] implies(len(s) > 0 && isToken, !cw.semiOmitted) && implies(len(s) == 0 || !isToken, cw.semiOmitted == old(cw.semiOmitted))
 //@   ensures [empty@C06] implies(len(s) == 0, eq(cw.Builder, old(cw.Builder)) && cw.lastByte == old(cw.lastByte))
+
+// asiHazard: first characters of a statement that a JavaScript parser takes for the continuation of the expression on
+// the line before it (ECMA-262 12.10.1: no semicolon is inserted when the offending token is allowed by the grammar).
+func asiHazard(c byte) bool { return c == '(' || c == '[' || c == '+' || c == '-' || c == '`' }
+
+// restoreSemi writes the semicolon that was left out exactly when the next token would continue the statement before it.
+//@ func (cw *CodeWriter) restoreSemi(next)
+//@   props C06 C03 C01 C08 C11
+//@   requires [cw] cw != nil && cwInv(cw) && J(cw) && NoFusion(cw)
+//@   modifies cw.Builder, cw.lastByte, cw.Mapper.generatedColumn
+//@   ensures [cwinv] cwInv(cw)
+//@   ensures [J@C08] J(cw)
+//@   ensures [no-fusion@C03,C01,C14] NoFusion(cw)
+//@   ensures [restored@C06,C03,C01] implies(cw.semiOmitted && asiHazard(next), cw.lastByte == ';' && writeSeq(evByte(';')))
+//@   ensures [only-then@C06] implies(!(cw.semiOmitted && asiHazard(next)), eq(cw.Builder, old(cw.Builder)) && cw.lastByte == old(cw.lastByte))
+//@   ensures [no-mapping@C08] cw.Mapper == nil || sourcemap.NumMappings(cw.Mapper) == old(sourcemap.NumMappings(cw.Mapper))
 
 // separateSigns writes a space exactly when the next token would fuse with the last byte written.
 //@ func (cw *CodeWriter) separateSigns(next)
@@ -298,8 +316,9 @@ func here(cw *CodeWriter) gpos {
 //@ func (cw *CodeWriter) WriteRune(r)
 //@   props C06 C08 C15 C01 C11
 //@   use cwFrame
-//@   ensures [mechanism@C06,C08] fullSeq(evCall("(*CodeWriter).flushPending"), evCall("(*CodeWriter).separateSigns"), evCall("(*CodeWriter).commitMapping"), evOpt(cw.Mapper != nil && r == '\n', evCall("(*SourceMapper).AdvanceLine")), evOpt(cw.Mapper != nil && r != '\n', evCall("(*SourceMapper).AdvanceColumn")))
+//@   ensures [mechanism@C06,C08] fullSeq(evCall("(*CodeWriter).flushPending"), evCall("(*CodeWriter).restoreSemi"), evCall("(*CodeWriter).separateSigns"), evCall("(*CodeWriter).commitMapping"), evOpt(cw.Mapper != nil && r == '\n', evCall("(*SourceMapper).AdvanceLine")), evOpt(cw.Mapper != nil && r != '\n', evCall("(*SourceMapper).AdvanceColumn")))
 //@   ensures [column@C08] implies(cw.Mapper != nil && r != '\n', callArg[int]("(*SourceMapper).AdvanceColumn", 0, 1) == 1)
+//@   ensures [asi@C06] callArg[byte]("(*CodeWriter).restoreSemi", 0, 1) == byte(r)
 //@   ensures [written@C06] !cw.semiOmitted
 //@   requires [ascii] 0 <= r && r < 128 && r != '\r'
 //@   ensures [flushed] len(cw.pendings) == 0 && cw.IndentLevel == old(cw.IndentLevel)
